@@ -118,6 +118,8 @@ impl Quat {
     /// Panics if `slice` length is less than 4.
     #[inline]
     pub fn write_to_slice(self, slice: &mut [f32]) {
+        // check the length once, before anything is written
+        let slice = &mut slice[..4];
         slice[0] = self.x;
         slice[1] = self.y;
         slice[2] = self.z;
